@@ -2,6 +2,7 @@ import CCVerif.Model.Parser
 import CCVerif.Model.AstQuery
 import CCVerif.Lemmas.ParserRangesLex
 import CCVerif.Lemmas.ParserShapeTop
+import CCVerif.Lemmas.RangeExactTop
 /-!
 # C06 — the parser builds the grammar's tree; node ranges delimit their source text
 
@@ -739,6 +740,58 @@ example : (parse .math (units "D{(a,b)∈X1×X2 | pr1(a)=b & ¬(a∈b ∨ b∈a)
 example :
     let ts : List LTok := [⟨.ID_LOCAL, .text "a", 3, 3⟩, ⟨.PLUS, .none, 3, 4⟩, ⟨.ID_LOCAL, .text "b", 7, 8⟩, ⟨.END, .none, 8, 8⟩]
     tokensOrdered ts = true ∧ (parseToks ts).map (fun t => (t.lo, t.hi, rangesNested t)) = some (3, 8, true) := by
+  decide +kernel
+
+/-! ## range_exact: every node is tiled exactly by the tokens of its own production and its children -/
+
+/-- **range_exact_tiled** (the local form of `range_exact`, WHOLE grammar, every token stream): number the
+tokens (`RangeExact.Idx 0 ts`: the `k`-th token has `lo = hi = k`, so a node's range `[lo, hi]` is "first token
+index, last token index" — positions and the gaps between tokens are abstracted away; the parser never looks at
+positions, `Lemmas/ParseErase.lean`). Then the tree `parseToks` returns is `stripBrackets raw` (`CreateSyntaxTree`:
+a bracket node `PUNC_PL` is replaced by its operand) of a raw tree that is `RangeExact.Tight`: at EVERY node the
+range consists of exactly the tokens of the node's own production and the ranges of its children, in order, with
+nothing else in between — `Sep s kids e` = first child starts at token `s`, exactly one token between
+neighbours, last child ends at token `e`: binary operator / n-ary product `Sep lo kids hi`; `{…}` `(…,…)`
+`Sep (lo+1) kids (hi-1)`; `F[…]` `Sep lo kids (hi-1)`; `pr1(…)` `ℬ(…)` `Sep (lo+2) kids (hi-1)`; `ℬℬ…` and `¬…`
+`Sep (lo+1) kids hi`; `∀v∈d p`: `v` at `lo+1`, `d` two after `v`, `p` directly after `d`, up to `hi`; `D{…}` `R{…}` `I{…}`
+`Sep (lo+2) kids (hi-1)`; `{x∈d|p}` `Sep (lo+1) kids (hi-1)`; `Fi[…](…)`; `[args] e`; `X:==…`; a leaf is one token.
+A REDUNDANT PARENTHESIS `( x )` over tokens `lo … hi`: the operand `x` carries the range `[lo, hi]` of the brackets
+(`RemoveBrackets`) while its own production is laid out over `[lo+1, hi-1]` — so after `stripBrackets` a
+bracketed node's range is first token `(` … last token `)` of its INNERMOST pair, and an outer pair `((x))` belongs
+to the tokens of the parent (`TB`). Hence every node's range is [first token of its own span, last token of its own
+span], the span being contiguous and made of its production's tokens, its (innermost) redundant parentheses and its
+children's spans. Proof: third invariant over the twelve parser functions (`Lemmas/RangeExact.lean`,
+`RangeExactTop.lean`, `parserTight`), all semantic actions, `TupleDeclaration`, function definitions, `X:==`. -/
+theorem range_exact_tiled (ts : List LTok) (t : Ast) (hn : RangeExact.Idx 0 ts) (h : parseToks ts = some t) :
+    ∃ raw : Ast, RangeExact.Tight raw ∧ raw.lo = 0 ∧ semanticCheck none raw = true ∧ stripBrackets raw = some t := by
+  unfold parseToks at h
+  simp only [] at h
+  split at h
+  · cases h
+  · split at h
+    · rename_i raw hraw
+      split at h
+      · rename_i hs
+        obtain ⟨n1, n2⟩ := RangeExact.tight_expression _ _ raw 0 (RangeExact.idx_takeWhile _ hn) hraw
+        exact ⟨raw, n1, n2, hs, h⟩
+      · cases h
+    · cases h
+
+/-- non-vacuity of `range_exact_tiled`, with redundant parentheses (single and doubled): the numbered stream of
+`( ( a + b ) ) * ( c ) ∪ d`… here `((a+b))*(c∪d)`: tokens 0 `(` 1 `(` 2 `a` 3 `+` 4 `b` 5 `)` 6 `)` 7 `*` 8 `(` 9 `c`
+10 `∪` 11 `d` 12 `)`. The parentheses leave no trace in the tree; `a+b` carries the range 1…5 of its INNER pair,
+`c∪d` the range 8…12 of its pair, the product 0…12 (it starts at the outer `(`). -/
+example :
+    let ts : List LTok := [⟨.PUNC_PL, .none, 0, 0⟩, ⟨.PUNC_PL, .none, 1, 1⟩, ⟨.ID_LOCAL, .text "a", 2, 2⟩, ⟨.PLUS, .none, 3, 3⟩,
+      ⟨.ID_LOCAL, .text "b", 4, 4⟩, ⟨.PUNC_PR, .none, 5, 5⟩, ⟨.PUNC_PR, .none, 6, 6⟩, ⟨.MULTIPLY, .none, 7, 7⟩,
+      ⟨.PUNC_PL, .none, 8, 8⟩, ⟨.ID_LOCAL, .text "c", 9, 9⟩, ⟨.UNION, .none, 10, 10⟩, ⟨.ID_LOCAL, .text "d", 11, 11⟩,
+      ⟨.PUNC_PR, .none, 12, 12⟩, ⟨.END, .none, 13, 13⟩]
+    RangeExact.Idx 0 ts ∧
+    (parseToks ts).map (fun t => Ast.eqv t (.node .MULTIPLY .none 0 12
+      [.node .PLUS .none 1 5 [.node .ID_LOCAL (.text "a") 2 2 [], .node .ID_LOCAL (.text "b") 4 4 []],
+       .node .UNION .none 8 12 [.node .ID_LOCAL (.text "c") 9 9 [], .node .ID_LOCAL (.text "d") 11 11 []]]) &&
+      t.lo == 0 && t.hi == 12 && (t.kids.map (fun k => (k.lo, k.hi))) == [(1, 5), (8, 12)]) = some true := by
+  refine ⟨by simp [RangeExact.Idx], ?_⟩
   decide +kernel
 
 end CCVerif.C06
